@@ -61,6 +61,11 @@ pub struct PartySpec {
 pub struct World {
     pub program: ProgSpec,
     pub parties: Vec<PartySpec>,
+    /// Some(seed): the thread parties do not run one after the other but CONCURRENTLY in one
+    /// process, interleaved by the baton scheduler at the compiler's yield points (statement /
+    /// expression / build / register allocation); the choice sequence is drawn from this seed
+    #[serde(default)]
+    pub concurrent: Option<u64>,
 }
 
 #[derive(Clone, Debug, Serialize, Deserialize)]
@@ -113,9 +118,74 @@ fn run_steps(prog: &ProgSpec, steps: &[Step]) -> Vec<(Outcome, Vec<ProbeRec>)> {
     out
 }
 
+fn yield_hook(_site: &'static str) {
+    crate::sched::point();
+}
+
+/// Run the thread parties of a world concurrently under the baton scheduler.
+fn run_concurrently(w: &World, seed: u64) -> Vec<(usize, Result<Vec<(Outcome, Vec<ProbeRec>)>, String>)> {
+    let idxs: Vec<usize> = (0..w.parties.len()).filter(|&i| !w.parties[i].process).collect();
+    let n = idxs.len();
+    crate::sched::begin(n, Prng::new(seed), None);
+    garble_lang::verif_hooks::set_yield_hook(Some(yield_hook));
+    let mut handles = vec![];
+    for (tid, &pi) in idxs.iter().enumerate() {
+        let party = w.parties[pi].clone();
+        let prog = w.program.clone();
+        let h = std::thread::Builder::new().stack_size(64 << 20).spawn(move || {
+            struct Leave;
+            impl Drop for Leave {
+                fn drop(&mut self) {
+                    crate::sched::leave();
+                }
+            }
+            crate::seams::set_thread_keys(party.keys.k0, party.keys.k1);
+            crate::sched::enter(tid);
+            let _g = Leave;
+            for _ in 0..party.keys.drift.max(1) {
+                let m: std::collections::HashMap<u8, u8> = std::collections::HashMap::new();
+                std::hint::black_box(&m);
+            }
+            crate::seams::enter_party_clock(party_time_ns(&party.keys), party_clock_step_ns(&party.keys));
+            crate::seams::enter_party_env(vec![]);
+            let r = guarded(|| run_steps(&prog, &party.steps));
+            crate::seams::leave_party_env();
+            crate::seams::leave_party_clock();
+            r
+        });
+        handles.push((pi, h));
+    }
+    crate::sched::start();
+    let mut out = vec![];
+    for (pi, h) in handles {
+        let r = match h {
+            Ok(h) => match h.join() {
+                Ok(r) => r,
+                Err(_) => Err("party thread died".to_string()),
+            },
+            Err(e) => Err(format!("spawn failed: {e}")),
+        };
+        out.push((pi, r));
+    }
+    let (_trace, points) = crate::sched::end();
+    garble_lang::verif_hooks::set_yield_hook(None);
+    SCHED_POINTS.fetch_add(points, std::sync::atomic::Ordering::Relaxed);
+    out
+}
+
+pub static SCHED_POINTS: std::sync::atomic::AtomicU64 = std::sync::atomic::AtomicU64::new(0);
+
 pub fn run_world(w: &World) -> WorldResult {
     let mut res = vec![];
-    for party in &w.parties {
+    let mut concurrent: BTreeMap<usize, Result<Vec<(Outcome, Vec<ProbeRec>)>, String>> = BTreeMap::new();
+    if let Some(seed) = w.concurrent {
+        concurrent.extend(run_concurrently(w, seed));
+    }
+    for (pi, party) in w.parties.iter().enumerate() {
+        if let Some(r) = concurrent.remove(&pi) {
+            res.push(r);
+            continue;
+        }
         if party.process {
             res.push(run_process_party(&w.program, party));
             continue;
@@ -142,7 +212,7 @@ pub fn take_discovered_env() -> Vec<String> {
 fn run_process_party(prog: &ProgSpec, party: &PartySpec) -> Result<Vec<(Outcome, Vec<ProbeRec>)>, String> {
     use std::io::Write;
     let exe = std::env::current_exe().map_err(|e| e.to_string())?;
-    let single = World { program: prog.clone(), parties: vec![PartySpec { process: false, ..party.clone() }] };
+    let single = World { program: prog.clone(), parties: vec![PartySpec { process: false, ..party.clone() }], concurrent: None };
     let pressure = party.alloc_limit.is_some();
     let mut child = std::process::Command::new(&exe)
         .arg("c06-child")
@@ -275,13 +345,15 @@ pub struct Tier {
     pub ill_typed: u64,
     /// large programs (10^5..10^6 gates), few parties
     pub big: u64,
+    /// parties compile concurrently in one process under the baton scheduler
+    pub concurrent: u64,
 }
 
 pub fn tier(t: &str) -> Tier {
     if t == "thorough" {
-        Tier { parties: 48, generated: 40_000, ill_typed: 2_000, big: 96 }
+        Tier { parties: 48, generated: 40_000, ill_typed: 2_000, big: 96, concurrent: 3_000 }
     } else {
-        Tier { parties: 12, generated: 1_500, ill_typed: 100, big: 8 }
+        Tier { parties: 12, generated: 1_500, ill_typed: 100, big: 8, concurrent: 120 }
     }
 }
 
@@ -298,7 +370,7 @@ impl Plan {
         Ok(Plan { corpus, n_corpus: n, tier: tier(t) })
     }
     pub fn n_cases(&self) -> u64 {
-        self.n_corpus + self.tier.generated + self.tier.ill_typed + self.tier.big
+        self.n_corpus + self.tier.generated + self.tier.ill_typed + self.tier.big + self.tier.concurrent
     }
 }
 
@@ -399,8 +471,13 @@ pub fn make_world(plan: &Plan, seed: u64, idx: u64) -> (World, String, Prng) {
         ("generated", format!("gen-{idx}"), gen::program(&mut p))
     } else if idx < plan.n_corpus + plan.tier.generated + plan.tier.ill_typed {
         ("ill_typed", format!("ill-{idx}"), gen::ill_typed(&mut p))
-    } else {
+    } else if idx < plan.n_corpus + plan.tier.generated + plan.tier.ill_typed + plan.tier.big {
         ("big", format!("big-{idx}"), gen::big_program(&mut p))
+    } else if p.chance(1, 4) && plan.n_corpus > 0 {
+        let e = &plan.corpus[p.usize_below(plan.corpus.len())];
+        ("concurrent", e.name.clone(), e.src.clone())
+    } else {
+        ("concurrent", format!("conc-{idx}"), gen::program(&mut p))
     };
     // analysis runs as a party too (fixed keys), so that even a seed-dependent front end cannot
     // make the case itself irreproducible
@@ -425,7 +502,9 @@ pub fn make_world(plan: &Plan, seed: u64, idx: u64) -> (World, String, Prng) {
         fns.push("main".into());
     }
     let light = src.len() > 6000;
-    let nparties = if family == "big" {
+    let nparties = if family == "concurrent" {
+        p.range(3, 7) as usize
+    } else if family == "big" {
         2
     } else if light {
         plan.tier.parties.min(6)
@@ -441,6 +520,14 @@ pub fn make_world(plan: &Plan, seed: u64, idx: u64) -> (World, String, Prng) {
             let st = |register: bool, dedup: bool, mode: Mode| Step { fn_name: f.clone(), opts: Opts { register, dedup }, mode, perm: vec![], cap: 0, warm_src: None };
             party.steps = vec![st(false, true, Mode::Src), st(false, true, Mode::Src), st(false, false, Mode::Src), st(true, true, Mode::Typed), st(false, true, Mode::Typed)];
         }
+    }
+    let mut concurrent = None;
+    if family == "concurrent" {
+        // short histories, all at once: the interesting thing is the interleaving
+        for party in parties.iter_mut() {
+            party.steps.truncate(p.range(1, 3) as usize);
+        }
+        concurrent = Some(p.next_u64());
     }
     // process history: some parties compiled something else before
     let adv = adversarial_warm(&src);
@@ -484,7 +571,7 @@ pub fn make_world(plan: &Plan, seed: u64, idx: u64) -> (World, String, Prng) {
             parties.push(PartySpec { keys, steps: vec![target], process: true, alloc_limit: Some(lim), env_flip: vec![] });
         }
     }
-    (World { program: ProgSpec { name, src, consts }, parties }, family.to_string(), p)
+    (World { program: ProgSpec { name, src, consts }, parties, concurrent }, family.to_string(), p)
 }
 
 // ------------------------------------------------------------------------------------------
@@ -510,11 +597,39 @@ fn same_class(f: &Finding, class: &str) -> bool {
 /// Shrink a failing world: simple two-party histories if possible, then ddmin over source lines.
 pub fn minimise(w: &World, f: &Finding, p: &mut Prng) -> (World, Finding) {
     let class = f.class.clone();
+    if w.concurrent.is_some() {
+        // an interleaving-dependent finding needs its partners: first see whether it also shows
+        // without concurrency (then the ordinary minimisation applies); otherwise keep the world
+        // and only drop parties and process parties that are not needed
+        let seq = World { concurrent: None, ..w.clone() };
+        let rs = run_world(&seq);
+        if let Some(f2) = judge(&seq, &rs).0.into_iter().find(|x| same_class(x, &class)) {
+            return minimise(&seq, &f2, p);
+        }
+        let mut best = w.clone();
+        let mut bf = f.clone();
+        let mut i = 0;
+        let mut budget = 12;
+        while i < best.parties.len() && best.parties.len() > 2 && budget > 0 {
+            budget -= 1;
+            let mut cand = best.clone();
+            cand.parties.remove(i);
+            let r = run_world(&cand);
+            if let Some(f2) = judge(&cand, &r).0.into_iter().find(|x| same_class(x, &class)) {
+                best = cand;
+                bf = f2;
+            } else {
+                i += 1;
+            }
+        }
+        bf.what = format!("{} [parties compiled CONCURRENTLY in one process, schedule seed {}]", bf.what, best.concurrent.unwrap_or(0));
+        return (best, bf);
+    }
     // 1. look for a pair of fresh single-step parties that disagree
     let probes = probe_parties(p, 24, &f.fn_name, f.opts);
     let mut best_world = w.clone();
     let mut best_finding = f.clone();
-    let pw = World { program: w.program.clone(), parties: probes.clone() };
+    let pw = World { program: w.program.clone(), parties: probes.clone(), concurrent: None };
     let pr = run_world(&pw);
     let (fs, _) = judge(&pw, &pr);
     let simple = fs.into_iter().find(|x| same_class(x, &class));
@@ -525,11 +640,12 @@ pub fn minimise(w: &World, f: &Finding, p: &mut Prng) -> (World, Finding) {
         best_world = World {
             program: w.program.clone(),
             parties: vec![fixed_probes[sf.a.0].clone(), fixed_probes[sf.b.0].clone()],
+            concurrent: None,
         };
         best_finding = sf;
     } else {
         // keep the original histories (process parties, warm steps) but only the two disagreeing parties
-        let two = World { program: w.program.clone(), parties: vec![w.parties[f.a.0].clone(), w.parties[f.b.0].clone()] };
+        let two = World { program: w.program.clone(), parties: vec![w.parties[f.a.0].clone(), w.parties[f.b.0].clone()], concurrent: None };
         let r = run_world(&two);
         match judge(&two, &r).0.into_iter().find(|x| same_class(x, &class)) {
             Some(tf) => {
@@ -546,10 +662,11 @@ pub fn minimise(w: &World, f: &Finding, p: &mut Prng) -> (World, Finding) {
         let cand = World {
             program: ProgSpec { name: w.program.name.clone(), src: src.to_string(), consts: consts.to_vec() },
             parties: fixed_probes.clone(),
+            concurrent: None,
         };
         let r = run_world(&cand);
         let f2 = judge(&cand, &r).0.into_iter().find(|x| same_class(x, &class))?;
-        let two = World { program: cand.program.clone(), parties: vec![cand.parties[f2.a.0].clone(), cand.parties[f2.b.0].clone()] };
+        let two = World { program: cand.program.clone(), parties: vec![cand.parties[f2.a.0].clone(), cand.parties[f2.b.0].clone()], concurrent: None };
         let r2 = run_world(&two);
         let f3 = judge(&two, &r2).0.into_iter().find(|x| same_class(x, &class))?;
         Some((two, f3))
@@ -715,6 +832,7 @@ pub fn run_case(plan: &Plan, seed: u64, idx: u64) -> CaseResult {
     *counters.entry("triples_compiled_ok".into()).or_insert(0) += ok_groups.len() as u64;
     *counters.entry(format!("programs_{family}")).or_insert(0) += 1;
     *counters.entry("parties".into()).or_insert(0) += w.parties.len() as u64;
+    *counters.entry("concurrent_scheduling_points".into()).or_insert(0) += SCHED_POINTS.swap(0, std::sync::atomic::Ordering::Relaxed);
     *counters.entry("clock_reads_by_thread_parties".into()).or_insert(0) +=
         crate::seams::CLOCK_READS_IN_PARTIES.swap(0, std::sync::atomic::Ordering::Relaxed);
     *counters.entry("keys_handed_by_seam".into()).or_insert(0) += log.iter().filter(|e| e.sys == b'g').count() as u64;
@@ -826,7 +944,7 @@ pub fn fidelity(plan: &Plan, seed: u64, n: u64) -> Result<(u64, u64), String> {
     for idx in (0..total).step_by(stride as usize).take(n as usize) {
         crate::seams::reset_world();
         let (w, _, _) = make_world(plan, seed, idx);
-        let single = World { program: w.program.clone(), parties: vec![w.parties[0].clone()] };
+        let single = World { program: w.program.clone(), parties: vec![w.parties[0].clone()], concurrent: None };
         let r = run_world(&single);
         let Some(Ok(outs)) = r.first() else {
             skipped += 1;
